@@ -1,12 +1,13 @@
 #!/bin/bash
-# tools/seed_regress.sh: apply every kept seeded change to /repo in turn, run that property's quick check, expect exit 1; restores /repo and evidence.
+# tools/seed_regress.sh [regex]: apply every kept seeded change (whose name matches the regex, e.g. '^C0[1-7]-') to /repo in turn, run that property's quick check, expect exit 1; restores /repo and evidence.
 cd "$(dirname "$0")/.."
 REPO=${PLOTINK_REPO:-/repo}
-rm -rf /tmp/ev_bak; cp -r evidence /tmp/ev_bak
+EVB=$(mktemp -d /tmp/ev_bak.XXXXXX); cp -r evidence $EVB/
 fail=0
 for d in seeded/*/; do
   name=$(basename $d); id=${name%%-*}
   [ -f $d/patch.diff ] || continue
+  if [ -n "${1:-}" ] && ! echo "$name" | grep -Eq "$1"; then continue; fi
   if git -C $REPO apply $PWD/$d/patch.diff 2>/dev/null || git -C $REPO apply --3way $PWD/$d/patch.diff 2>/dev/null; then
     out=$(./check $id quick 2>&1); rc=$?
     git -C $REPO reset -q --hard HEAD
@@ -17,6 +18,6 @@ for d in seeded/*/; do
     echo "$name patch does not apply (superseded by a fix commit)"; git -C $REPO reset -q --hard HEAD
   fi
 done
-rm -rf evidence; mv /tmp/ev_bak evidence
+rm -rf evidence; mv $EVB/evidence evidence; rmdir $EVB
 git -C $REPO status --short | grep -v egg-info
 exit $fail
